@@ -218,7 +218,6 @@ def child_run(case, tmp):
     logging.disable(logging.CRITICAL)
     from dataclass_wizard import EnvWizard, env_field, json_field
     from dataclass_wizard.errors import MissingVars
-    from dataclass_wizard.environ import lookups
     from dataclass_wizard.environ.lookups import Env
     st0 = peek_state()
     if st0['environ'] is not None or st0['var_names'] is not None or st0['cleaned'] is not None or st0['accessed']:
